@@ -21,6 +21,8 @@ mod canon;
 mod mutate;
 
 use battery::*;
+use num_bigint::{BigInt, BigUint};
+use std::collections::HashMap;
 use bytes::Buf;
 use serde_json::json;
 use std::collections::{BTreeMap, HashSet};
@@ -664,7 +666,7 @@ impl<T: Battery> TypeDyn for Holder<T> {
         if let (Out::Ok(x), Out::Ok(v)) = (&direct, &parsed) {
             add(&c.text_calls, 1);
             if let Ok(back) = guard(|| x.as_value()) {
-                if let Some(d) = canon::first_difference(&canon::canon_maps(v, T::MAP_PATHS), &canon::canon(&back)) {
+                if let Some(d) = canon::first_difference(&canon::canon_with(v, T::MAP_PATHS, T::OPAQUE_PATHS), &canon::canon_with(&back, &[], T::OPAQUE_PATHS)) {
                     sink.report(
                         "agree",
                         format!("type={} law=accepted_input_matches_model source=recon at={}", T::NAME, d),
@@ -706,7 +708,7 @@ impl<T: Battery> TypeDyn for Holder<T> {
         if let (Out::Ok(x), Out::Ok(v)) = (&direct, &parsed) {
             add(&c.mpm_calls, 1);
             if let Ok(back) = guard(|| x.as_value()) {
-                if let Some(d) = canon::first_difference(&canon::canon_maps(v, T::MAP_PATHS), &canon::canon(&back)) {
+                if let Some(d) = canon::first_difference(&canon::canon_with(v, T::MAP_PATHS, T::OPAQUE_PATHS), &canon::canon_with(&back, &[], T::OPAQUE_PATHS)) {
                     let h = hex(bytes);
                     sink.report(
                         "msgpack_agree",
@@ -756,6 +758,11 @@ fn registry(p: &Pools, cap: usize) -> Vec<Box<dyn TypeDyn>> {
         Opts, OptHdr, OptHdrBody, Colls, AttrColls, IntMap, Prims, Bigs,
         Gen<i32>, Gen<Named>, Gen<Vec<String>>, GenBody<E1>, Nest1, Nest2, VecStruct,
         E1, E2, Tagged, EnumHolder,
+        ValSlot, ValBody, ValAttr, ValHdrBody, ValHdr, ValEnum,
+        Builtins, BuiltinPlaces, NestedColls,
+        i32, u64, f64, String, BigInt, BigUint, Vec<u8>, Vec<i32>, Option<i32>, Option<Named>,
+        HashMap<String, i32>, (i32, String), std::time::Duration, swimos_model::Timestamp,
+        swimos_utilities::future::RetryStrategy, Vec<Named>, Value,
     )
 }
 
